@@ -442,6 +442,39 @@ def table_rules(run, db):
     dom2.loop = lambda node, frame: False
     loops = [n for n in f.node.body if isinstance(n, ast.For)]
     sn = [s_ for s_ in snaps if loops and s_.node is loops[-1]]
+    comps = [n for n in walk_no_nested(f.node) if isinstance(n, ast.ListComp) and len(n.generators) == 1 and isinstance(n.generators[0].iter, ast.Name) and n.generators[0].iter.id == 'mns'
+             and isinstance(n.generators[0].target, ast.Tuple) and len(n.generators[0].target.elts) == 2 and not n.generators[0].ifs]
+    if not loops and len(comps) == 1:
+        # the accumulation written as a comprehension over the requests: its element, evaluated with the tables the function built
+        paths_ = it2.run(f, kwargs=lambda: {'mns': dom2.sym('mns'), 'x': dom2.sym('x'), 'y': dom2.sym('y'), 'cartesian_grid': Const(False)})
+        envs = [p_.frame.env for p_ in paths_ if p_.frame is not None]
+        if not envs:
+            raise AnalysisError('xy_seq: the request comprehension was not reached')
+        env = dict(envs[0])
+        tg = [e.id for e in comps[0].generators[0].target.elts if isinstance(e, ast.Name)]
+        if len(tg) != 2:
+            raise AnalysisError('xy_seq: the request comprehension does not unpack (m, n)')
+        env.update({tg[0]: dom2.sym('m'), tg[1]: dom2.sym('n')})
+        it2._reset_run([])
+        elt = it2.ev(comps[0].elt, Frame(f, f.module, env))
+        fam = fams[0][:-4] if len(fams) == 1 else None
+        A2 = lambda nme: Rat(R2.atom(nme))
+        want = Rat(R2.func(fam, [A2('m'), Rat(R2.const(0)), A2('x')])) * Rat(R2.func(fam, [A2('n'), Rat(R2.const(0)), A2('y')])) if fam else None
+        got = dom2.rat(elt)
+        run.check(want is not None and got is not None and got == want, 'C08.table', f.qual, 'lookup', 'term (m, n) is x_table[m] * y_table[n], one per request in request order',
+                  'xy_seq yields %s for the request (m, n), expected %s' % (got.key() if got is not None else repr(elt), want.key() if want is not None else '?'), f.loc(comps[0]))
+        laws = {k: v for k, v in env.items() if isinstance(v, ST.Law)}
+        labels = sorted(v.label for v in laws.values() if ' over ' in v.label)
+        if len(labels) < 2:
+            # the tables may be used in place (list(dickson2_seq(...))[m]): read the order arrays off every law created
+            labels = sorted(set(getattr(dom2, 'law_labels', [])))
+        okl = labels == sorted('%s over arange(0, %s)' % (fams[0], (A2(c_) + 1).key()) for c_ in ('colmax0', 'colmax1')) if fam else False
+        run.check(okl, 'C08.table', f.qual, 'table orders', 'the x / y tables hold the orders 0..max(m) / 0..max(n) contiguously, so list index == order',
+                  'the monomial tables are built over %s' % labels, f.loc())
+        fxy = db.func(P + 'xy.xy')
+        rets = [n for n in walk_no_nested(fxy.node) if isinstance(n, ast.Return)]
+        run.check(len(rets) == 1 and ast.unparse(rets[0].value).replace(' ', '') == 'x**m*y**n', 'C08.table', fxy.qual, 'definition', 'xy == x**m y**n', 'xy is not x**m * y**n', fxy.loc())
+        return
     if len(loops) != 1 or not sn:
         raise AnalysisError('xy_seq: the request loop was not reached')
     L = loops[0]
